@@ -1309,7 +1309,11 @@ class Engine:
                 if tgt.aid is not None and tgt.aid in self.st.escaped:
                     self.prove("ownership:%s:append-to-escaped-list" % (fr.fi.qualname if fr.fi else "?"),
                                False, props=("C01", "C20"), where="%s:%d" % (fr.file, e.lineno))
-                self.assign(_as_store(e.func.value), seq_append(tgt, x), fr)
+                new = seq_append(tgt, x)
+                hk = self.st.ghost.get("on_append")
+                if hk is not None:
+                    new = hk(self, tgt, x, new)
+                self.assign(_as_store(e.func.value), new, fr)
                 return None
             if tgt is None:
                 raise PyRaise("AttributeError", ("'NoneType' object has no attribute 'append'",), e)
@@ -1714,6 +1718,13 @@ class Engine:
         if len(args) == 2:
             return SliceVal(args[0], args[1], None)
         return SliceVal(*args)
+
+    def b_open(self, args, kwargs, node, fr):
+        h = self.lib.get("builtin.open")
+        if h is None:
+            raise Unsupported("open() without a file-system model")
+        self.used_lib.add("builtin.open")
+        return h(self, args, kwargs)
 
     def b_object(self, args, kwargs, node, fr):
         raise Unsupported("object()")
